@@ -1224,7 +1224,7 @@ class Interp:
             items = obj.items if isinstance(obj, PList) else list(obj)
             a = None if lo is None else lo.as_int()
             b = None if hi is None else hi.as_int()
-            return PList(items[a:b])
+            return tuple(items[a:b]) if isinstance(obj, tuple) else PList(items[a:b])      # a slice of a tuple is a tuple
         tag = f"[{canon(lo) if lo is not None else ''}:{canon(hi) if hi is not None else ''}]"
         if isinstance(obj, (RLE, RLECat, NArr)) and const(lo) and const(hi):
             segs = _segs(obj)
